@@ -50,7 +50,7 @@ func RunSolo(c *core.Case) ([]SoloResult, error) {
 		if t.Kind == "writer" {
 			sink.Fault = t.SinkFault
 		}
-		wr := core.ExecWriter(t.W, sink)
+		wr := core.ExecWriterKind(t.W, sink, sinkKindOr(t.SinkKind))
 		var brief []string
 		for _, a := range wr.APIs {
 			brief = append(brief, fmt.Sprintf("%s:%v:%v", a.API, a.IsErr, a.Panic != ""))
